@@ -77,3 +77,28 @@ V('C20', 'loop-control-edge-dropped', 'edb/edgeql/declarative.py', 'edb.edgeql.d
   '        parent_node.loop_control.add(fq_name)\n', '        parent_node.loop_control.add(fq_name)\n        deps.discard(loop_control)\n', 'C20.R6', 'hard-deps-only-grow')
 V('C20', 'neg-entry-default-restructured', 'edb/common/topological.py', 'edb.common.topological.DepGraphEntry.__init__',
   '        if deps is None:\n            deps = set()\n        self.deps = deps\n', '        self.deps = set() if deps is None else deps\n', None)
+V('C20', 'orderedset-iand-takes-other-order', 'edb/common/ordered.py', None,
+  '    intersection_update = collections.abc.MutableSet.__iand__\n', '''    def __iand__(self, other):  # type: ignore
+        self.map = {item: None for item in other if item in self.map}
+        return self
+
+    intersection_update = __iand__  # type: ignore
+''', 'C20.R7', 'OrderedSet.__iand__:keeps-own-order')
+V('C20', 'neg-orderedset-iand-own-order', 'edb/common/ordered.py', None,
+  '    intersection_update = collections.abc.MutableSet.__iand__\n', '''    def __iand__(self, other):  # type: ignore
+        keep = set(other)
+        self.map = {item: None for item in self.map if item in keep}
+        return self
+
+    intersection_update = __iand__  # type: ignore
+''', None)
+V('C20', 'self-ref-flag-reset-per-element', 'edb/schema/delta.py', 'edb.schema.delta.sort_by_cross_refs_key',
+  '        if x in referrers:\n            self_ref = x\n', '        self_ref = x if x in referrers else None\n', 'C20.R7', 'self_ref-sticky')
+V('C20', 'lint-flag-reset-per-element', 'edb/schema/delta.py', 'edb.schema.delta.sort_by_cross_refs_key',
+  '        if x in referrers:\n            self_ref = x\n', '        self_ref = x if x in referrers else None\n', 'C20.L', 'slips:loops')
+V('C20', 'forward-rename-map-for-new-name', 'edb/schema/ordering.py', 'edb.schema.ordering._trace_op',
+  '''        if ref_name in renames_r:
+            ref_name = renames_r[ref_name]
+        ref_name_str = str(ref_name)
+''', '''        ref_name_str = str(renames.get(ref_name, ref_name))
+''', 'C20.R7', '_trace_op:forward-rename-key')
